@@ -30,7 +30,11 @@ func init() { checks["C09"] = checkC09 }
 const c09OddSubBlocks = "odd-subblock-count-unaligned"
 
 type codecClass struct {
-	Cls struct {
+	Name string `json:"name"` // set by the classes of the growth round (c09_growth.go): the class key
+	// NoCounts: TLC did not evaluate the table of all label counts (128^3 dense class); CalcNumLabels is
+	// then compared with the decoded volume only (in the node) and through the probes
+	NoCounts bool `json:"nocounts"`
+	Cls      struct {
 		K     int  `json:"k"`
 		Ki    int  `json:"ki"`
 		Lay   int  `json:"lay"`
@@ -59,6 +63,9 @@ type codecClass struct {
 }
 
 func (k *codecClass) key() string {
+	if k.Name != "" {
+		return k.Name
+	}
 	return fmt.Sprintf("k%d/lay%d/zero%v/bg-%s/%s/split%d.%d/%dx%dx%d/%s", k.Cls.K, k.Cls.Lay, k.Cls.Zero, k.BG,
 		map[bool]string{true: "solid", false: "mixed"}[k.Cls.Solid], k.Split.S, k.Split.P, k.Dims[0], k.Dims[1], k.Dims[2], k.LClass)
 }
@@ -205,7 +212,18 @@ func c09Compare(run *ev.Run, k *codecClass, c *lg.Case, m []uint64, o *lg.CaseOb
 			}
 		}
 	}
-	v := o.Views
+	c09CompareViews(viol, run, k, c, m, o.Views)
+	c09CompareGrowth(viol, run, k, c, m, o)
+	for _, sv := range o.Subvols {
+		if sv.Err != "" || !sv.Equal {
+			viol("SubvolumeToBlock", map[string]interface{}{"block_offset": sv.Off}, sv.Err)
+		}
+	}
+}
+
+// c09CompareViews compares the views of one block (the fresh block, or the same labelling
+// re-serialized with zero label counts) with the class.
+func c09CompareViews(viol func(kind string, exp, obs interface{}), run *ev.Run, k *codecClass, c *lg.Case, m []uint64, v *lg.Views) {
 	if v == nil {
 		infra("case %d: no views", c.ID)
 	}
@@ -215,7 +233,7 @@ func c09Compare(run *ev.Run, k *codecClass, c *lg.Case, m []uint64, o *lg.CaseOb
 		want = append(want, [2]uint64{m[p[0]], uint64(p[1])})
 	}
 	sort.Slice(want, func(i, j int) bool { return want[i][0] < want[j][0] })
-	if fmt.Sprint(want) != fmt.Sprint(v.NumLabels) {
+	if !k.NoCounts && fmt.Sprint(want) != fmt.Sprint(v.NumLabels) {
 		viol("CalcNumLabels", want, v.NumLabels)
 	}
 	for name, ok := range map[string]bool{"CalcNumLabels-vs-decoded": v.NumLabelsOK, "Value": v.ValueOK, "GetPointLabels": v.PointsOK,
@@ -252,11 +270,6 @@ func c09Compare(run *ev.Run, k *codecClass, c *lg.Case, m []uint64, o *lg.CaseOb
 			if fmt.Sprint(mk.m.Atoms) != fmt.Sprint(exp) {
 				viol(mk.name, map[string]interface{}{"labels": c.Sets[si], "foreground": s.Fg}, mk.m.Atoms)
 			}
-		}
-	}
-	for _, sv := range o.Subvols {
-		if sv.Err != "" || !sv.Equal {
-			viol("SubvolumeToBlock", map[string]interface{}{"block_offset": sv.Off}, sv.Err)
 		}
 	}
 }
@@ -298,6 +311,25 @@ func checkC09(c *Ctx) int {
 			owner = append(owner, k)
 		}
 	}
+	// ---- growth: probes / outside points on the class table's cases, the dense classes, bounds for every case
+	c09GrowthInit()
+	for i := range cases {
+		c09CodecGrowth(owner[i], cases[i], maps[i], rng)
+	}
+	tD := time.Now()
+	dense, rDense := c09DenseClasses(c)
+	tDense := since(tD)
+	nCodecCases := len(cases)
+	for di, dk := range dense {
+		for v := 0; v < 2; v++ {
+			cs, m := c09DenseCase(dk, len(cases), v+di, rng, c.thorough())
+			cases = append(cases, cs)
+			maps = append(maps, m)
+			owner = append(owner, &dk.codecClass)
+		}
+	}
+	bStates, _ := c09AssignBounds(c, cases, c.pick(2, 3))
+	tTLC += tDense
 	// big blocks last and small batches: balance the workers
 	pool := newLblPool(c, 16)
 	defer pool.close()
@@ -327,7 +359,8 @@ func checkC09(c *Ctx) int {
 		"counts_expected_by_TLC": len(classes[len(classes)/3].Counts), "case_geometry_subblocks": len(cases[len(cases)/3].Geom.SBs)})
 	run.Sample(map[string]interface{}{"class": classes[0].key(), "expected_counts": classes[0].Counts, "label_sets": classes[0].Sets[2].Labels})
 	run.Set("classes_enumerated_by_TLC", len(classes))
-	run.Set("tlc_states", r.Distinct)
+	run.Set("tlc_states", r.Distinct+rDense.Distinct+bStates)
+	c09GrowthEvidence(run, len(dense), len(cases)-nCodecCases, tDense)
 	run.Set("arrays", len(cases))
 	run.Set("points_compared", points)
 	run.Set("sparse_outputs_compared", sparse)
@@ -335,9 +368,10 @@ func checkC09(c *Ctx) int {
 	run.Set("index_bit_widths_covered", len(bits))
 	run.Set("block_shapes_covered", len(dims))
 	run.Set("tlc_s", tTLC)
-	run.Set("rule", "evaluation = one concrete label array (a class of the TLC-generated table LabelBlockCodec.tla expanded with seeded sub-block positions, 64-bit label values, block coordinate, sub-volume offsets) taken through MakeBlock -> MakeLabelVolume (byte identity), Marshal/UnmarshalBinary, WriteLabelVolume, Value and GetPointLabels on every voxel, CalcNumLabels, WriteRLEs and WriteBinaryBlocks for six label sets (one block and two x-adjacent blocks), SubvolumeToBlock at block offsets of a 2x2x2 grid; expected label counts and foreground sets come from TLC at region granularity, voxel-level agreement with the decoded volume is checked in the node; distinct_nontrivial = distinct classes (palette size x layout x label-0 x background x block shape x split kind x label magnitude class)")
+	run.Set("rule", "evaluation = one concrete label array (a class of the TLC-generated table LabelBlockCodec.tla expanded with seeded sub-block positions, 64-bit label values, block coordinate, sub-volume offsets) taken through MakeBlock -> MakeLabelVolume (byte identity), Marshal/UnmarshalBinary, WriteLabelVolume, Value and GetPointLabels on every voxel, CalcNumLabels, WriteRLEs and WriteBinaryBlocks for six label sets (one block and two x-adjacent blocks), SubvolumeToBlock at block offsets of a 2x2x2 grid; expected label counts and foreground sets come from TLC at region granularity, voxel-level agreement with the decoded volume is checked in the node. Growth: the dense classes of LabelBlockDense.tla (every sub-block its own palette size, every ordered pair of index widths 0..9 adjacent - checked by TLC -, shared labels, label 0 inside palettes) go through the same views; every array additionally gets non-empty dvid.Bounds from the class table of LabelBlockBounds.tla (TLC computes the box, the blocks passing the block-level screen and the voxel cut per block; exact bounds must give exactly the label set's voxels inside the cut, inexact bounds and binary blocks something between that and the whole foreground of the passing blocks), ReplaceLabel probes whose returned count (getNumVoxels) must be TLC's voxel count, points outside the block (label 0), and - dense classes with all-zero sub-blocks - the block re-serialized by hand with NumSBLabels = 0 for those sub-blocks, on which every view must show the unchanged labelling unless UnmarshalBinary refuses it. distinct_nontrivial = distinct classes (palette size x layout x label-0 x background x block shape x split kind x label magnitude class; dense class) + distinct (class, bounds class)")
 	run.Assume = []string{"the for-all over array contents is explored through the class table (every palette size on both sides of each index bit width up to 9 bits, three layouts, label 0 in/out of the palette, four backgrounds, ten split shapes, block shapes from {16,32,64}^3) and seeded expansion, not exhaustively",
-		"block sizes above 64 per axis are not exercised"}
+		"block sizes above 64 per axis are exercised by ten dense classes of the thorough tier only (64^3, 128^3, 16x1024x16, 32x64x32)",
+		"bounded sparse views are given only the blocks that pass the block-level screen (as labelmap does); inexact bounds and binary blocks are judged as supersets of the cut, subsets of the foreground"}
 	fmt.Printf("C09: %d classes from TLC (%.1fs), %d arrays, %d points, %d sparse outputs, %d sub-volume conversions in %.1fs; violations=%d\n",
 		len(classes), tTLC, len(cases), points, sparse, subvols, since(t0), run.Violations())
 	return run.Finish()
